@@ -217,6 +217,26 @@ func checkReading(c Case) error {
 		secFrags = append(secFrags, s.Fragments...)
 		secLines = append(secLines, s.Lines...)
 	}
+	// the documented options of the detector: whatever order they choose, nothing is lost or doubled
+	for _, v := range []struct {
+		name string
+		mod  func(*layout.ReadingOrderConfig)
+	}{
+		{"PreferColumnOrder=false", func(c *layout.ReadingOrderConfig) { c.PreferColumnOrder = false }},
+		{"Direction=RightToLeft", func(c *layout.ReadingOrderConfig) { c.Direction = layout.RightToLeft }},
+		{"SpanningThreshold=0.5", func(c *layout.ReadingOrderConfig) { c.SpanningThreshold = 0.5 }},
+	} {
+		cfg := layout.DefaultReadingOrderConfig()
+		v.mod(&cfg)
+		alt := layout.NewReadingOrderDetectorWithConfig(cfg).Detect(in, w, h)
+		if err := first(
+			sameFragments("ReadingOrderDetector("+v.name+").Detect: Fragments", in, alt.Fragments),
+			sameFragments("ReadingOrderDetector("+v.name+").Detect: fragments of Lines", in, lineFrags(alt.Lines)),
+			sameRunes("ReadingOrderDetector("+v.name+"): GetText", in, alt.GetText()),
+		); err != nil {
+			return err
+		}
+	}
 	return first(
 		sameFragments("ReadingOrderDetector.Detect: Fragments", in, ro.Fragments),
 		sameFragments("ReadingOrderDetector.Detect: fragments of Lines", in, lineFrags(ro.Lines)),
